@@ -143,7 +143,7 @@ def run(P, item):
                     w = dict(subject=name, progs=progs_spec, nfill=nfill, deadlock=str(o.res), sched=list(ctx.sched_trace), locks=[[str(x) for x in e] for e in locks],
                              fills=[[ev(x) for x in t] for t in stash['fills']], fresh=[[ev(x) for x in v] for k, v in stash['fresh']], fresh_keys=[list(k) for k, v in stash['fresh']],
                              pred=[(cn, render_key(k, ev), ev(b)) for cn, k, b in stash['env']['pred'].memo])
-                res['failed'].append(dict(prop='C17', clause='no interleaving leaves every unfinished caller blocked', kind='conc', msg=str(o.res), cfg=f"CONC/{name}", op=_progs_str(progs_spec), witness=w))
+                if 'C17' in props: res['failed'].append(dict(prop='C17', clause='no interleaving leaves every unfinished caller blocked', kind='conc', msg=str(o.res), cfg=f"CONC/{name}", op=_progs_str(progs_spec), witness=w))
             continue
         if o.status == 'panic':
             res['classes'].add('panic')
